@@ -208,7 +208,9 @@ def run_case(case):
                 classes.add("monotone")
                 # the error at one x is not proportional to the worst interpolation residual on [x,1) (measured: 20x better grids
                 # improving the prediction by 1.5x only), so only a *deterioration* under refinement is a violation
-                if not e2 <= 2.0 * e1 + 3 * FLOOR * S2 + 5.0 * Es[j].get(key, 0.0):
+                # ... and only when the refined grid's error is a sizeable part (>10%) of what its interpolation accuracy allows: a coarse
+                # grid can be accurate by accident (measured: 2e-4 -> 7e-4 of S with both far inside K*eps)
+                if not e2 <= 2.0 * e1 + 3 * FLOOR * S2 + 5.0 * Es[j].get(key, 0.0) and e2 > 0.1 * (K[o] * epss[j] * S2):
                     viol.append(dict(sig=f"refinement-worse|{case['kind']}|o{o}", what=f"{name} order {o} x={x:.5g}: interpolation error fell {epss[i]:.1e} -> {epss[j]:.1e} but the prediction error grew {e1/S1:.2e} -> {e2/S2:.2e} (of S)"))
     # (iii) SV keys on the two finest adequate grids
     if len(adequate) >= 2:
